@@ -767,6 +767,71 @@ def f():
     d = dict.fromkeys('ab', [])
     d['a'].append(1)
     return c(), rows, d, -7 // 2, -7 % 3, int(-2.5), round(2.5), round(3.5), round(-0.5), divmod(-7, 2), [1, 2, 3][-5:2], list(range(10, 0, -3)), (1, 'a') < (1, 'b'), True + True, sorted([3, 1, 2])[::-1]
+---
+def f():
+    log = []
+    def inner(v):
+        try:
+            log.append('try')
+            return 10 // v
+        except KeyError:
+            log.append('wrong handler')
+        finally:
+            log.append('finally')
+    try:
+        inner(0)
+    except ArithmeticError as e:
+        log.append('outer ' + type(e).__name__)
+    try:
+        [][3]
+    except LookupError:
+        log.append('lookup')
+    try:
+        {}['k']
+    except (ValueError, LookupError):
+        log.append('lookup2')
+    try:
+        int('x')
+    except Exception:
+        log.append('any')
+    return log, inner(5)
+---
+def f():
+    g = (v * v for v in range(3))
+    first = list(g)
+    second = list(g)
+    m = map(str, [1, 2])
+    a = list(m)
+    b = list(m)
+    z = zip('ab', [1, 2])
+    return first, second, a, b, dict(z), dict(z), sum(g)
+---
+def f():
+    d = {'a': 1, 'b': 2}
+    try:
+        for k in d:
+            d[k + k] = 0
+    except RuntimeError:
+        return 'changed during iteration', len(d)
+    return 'no error', len(d)
+---
+def f():
+    xs = [1, 2, 3, 4]
+    for v in xs:
+        if v % 2 == 0:
+            xs.remove(v)
+    ys = [3, 1, 2]
+    zs = sorted(ys)
+    ys2 = ys
+    ys2.sort()
+    return xs, ys, zs, ys is ys2
+---
+def f():
+    def gen():
+        yield 1
+        yield 2
+    g = gen()
+    return len(list(g)), len(list(g)), next(gen()), [v for v in gen()] + [v for v in gen()]
 '''
 
 
